@@ -840,7 +840,11 @@ TickStep(s) ==
 \* the mutating webhook on a template change (workload_update_handler.go handleCloneSet): the workload is put
 \* on hold (partition 100%, in-progressing marker) iff an active Rollout matches and, with traffic routing,
 \* the workload runs a single revision
+\* a rollout-id annotation that is present and UNCHANGED by the update: the webhook does not treat the update as a release
+\* (the harness bumps the id with every release except in the fixed-id scenarios, whose id is "idfix")
+RidUnchanged(s) == s.wl.rid = "idfix"
 WebhookHolds(s) ==
+  /\ ~RidUnchanged(s)
   /\ s.wl.R > 0
   /\ s.ro.exists /\ ~s.ro.deleting /\ s.ro.phase # "Disabled"
   /\ (HasProvider(s) /\ s.wl.kind = "CloneSet" => s.wl.stRepl = s.wl.stUpdated)   \* only handleCloneSet checks for a single revision
